@@ -340,6 +340,11 @@ func (e *Exec) callFn(fr *frame, st *State, c *ssa.CallCommon, fn *ssa.Function,
 		return e.freshOf(st, "nocontract", sig.Results()), true
 	}
 	// external code
+	if op, ok := isLockFn(key); ok && len(args) > 0 {
+		e.trusted("locks: sequentially a no-op; under the C09 check the set of held locks is tracked (lock discipline)")
+		e.lockOp(st, op, args[0], fn.Signature.Recv().Type(), where)
+		return &Tuple{}, true
+	}
 	if ct != nil {
 		return e.modularCall(st, ct, fn.Signature, args, where, key)
 	}
@@ -616,6 +621,30 @@ func (e *Exec) modularCall(st *State, ct *Contract, sig *types.Signature, args [
 		nm := fmt.Sprintf("pre.%s@%s", clauseName(cl, i), calleeName)
 		e.oblige(st, "pre", nm, g, where)
 		e.assume(st, g)
+	}
+	if e.lockChecking() {
+		if ct.Attrs["holds"] != "" {
+			if cfn := e.w.lookupFn(ct); cfn != nil {
+				if lr, mode, ok := e.holdsLock(st, ct, cfn, args); ok {
+					e.oblige(st, "lock", "lock.holds@"+calleeName, e.heldTerm(st, lr, mode), where)
+				}
+			}
+		} else if len(st.locks) > 0 && ct.Kind == "func" {
+			if cfn := e.w.lookupFn(ct); cfn != nil && ct.Attrs["leaflock"] == "" && e.fnAcquires(cfn, 0) {
+				e.oblige(st, "lock", "lock.order@"+calleeName, tFalse, where+": call of a function that acquires locks while a lock is held")
+			}
+		}
+		if ct.Attrs["fs-mutating"] != "" && e.topCt != nil && e.topCt.Attrs["fslock"] != "" {
+			w := false
+			for _, m := range st.locks {
+				if m == lockWrite {
+					w = true
+				}
+			}
+			if !w {
+				e.oblige(st, "lock", "lock.fswrite@"+calleeName, tFalse, where+": file-system mutation without a write lock")
+			}
+		}
 	}
 	old := st.clone()
 	var panicState *State
@@ -1171,4 +1200,56 @@ func ghostCanon(name string) string {
 		return "ghost_closed"
 	}
 	return name
+}
+
+// fnAcquires: does fn (or a repository function it calls statically) call a sync Lock / RLock?
+func (e *Exec) fnAcquires(fn *ssa.Function, depth int) bool {
+	if e.acqCache == nil {
+		e.acqCache = map[*ssa.Function]bool{}
+	}
+	if v, ok := e.acqCache[fn]; ok {
+		return v
+	}
+	if depth > 8 || fn.Blocks == nil {
+		return false
+	}
+	e.acqCache[fn] = false
+	res := false
+	var scan func(f *ssa.Function)
+	scan = func(f *ssa.Function) {
+		for _, b := range f.Blocks {
+			for _, in := range b.Instrs {
+				var cc *ssa.CallCommon
+				switch x := in.(type) {
+				case *ssa.Call:
+					cc = &x.Call
+				case *ssa.Defer:
+					cc = &x.Call
+				}
+				if cc == nil || cc.IsInvoke() {
+					continue
+				}
+				if callee := cc.StaticCallee(); callee != nil {
+					if op, ok := isLockFn(fnKey(callee)); ok && (op == "lock" || op == "rlock") {
+						res = true
+						return
+					}
+					if cct := e.cs.ByKey[fnKey(callee)]; cct != nil && cct.Attrs["leaflock"] != "" {
+						// its locks are leaves: never held while another lock is taken or a channel is waited on
+						continue
+					}
+					if isRepoFn(callee) && e.fnAcquires(callee, depth+1) {
+						res = true
+						return
+					}
+				}
+			}
+		}
+		for _, a := range f.AnonFuncs {
+			scan(a)
+		}
+	}
+	scan(fn)
+	e.acqCache[fn] = res
+	return res
 }
